@@ -172,6 +172,61 @@ theorem C08_final_is_failure_iff_counterexample :
     (step WState.init (.removeListener (some .tcp) 0)).2.resp = [.failure] := by
   decide
 
+/-! ### decision logic of the worker-level handlers -/
+
+/-- **SetMetricDetail, table bound.** Over every history the metric-detail lease table
+    never holds more than `LEASE_TABLE_CAP` entries (a new client is refused at the cap,
+    a renewal is not) -/
+theorem C08_lease_table_bounded (ops : List Op) (s : WState)
+    (h : s.leases.length ≤ Consts.wkLeaseTableCap) :
+    (runState s ops).leases.length ≤ Consts.wkLeaseTableCap :=
+  c08_lease_table_bounded ops s h
+
+/-- **SetMetricDetail, ownership.** A lease taken with a known peer binding is renewed or
+    cleared by that peer only: any other presenter (other peer, or no binding) gets a
+    Failure and the table is unchanged -/
+theorem C08_lease_owner_only (ls : List (Nat × Bool × Nat)) (c owner : Nat) (l cl : Bool) (t k : Bool)
+    (p : Nat) (hown : ls.find? (·.1 == c) = some (c, true, owner)) (hl : l = false)
+    (hother : ¬ (k = true ∧ p = owner)) :
+    setDetailStep ls c l cl 1 t k p = (ls, false) :=
+  c08_lease_owner_only ls c owner l cl t k p hown hl hother
+
+example : (run WState.init [Op.setDetail 0 false false 1 false true 0, .setDetail 0 false false 1 false true 1,
+    .setDetail 0 false true 1 false false 0, .setDetail 0 false true 1 false true 0,
+    .setDetail 0 false true 1 false true 0]).2.map (·.resp)
+    = [[.ok], [.failure], [.failure], [.ok], [.ok]] := by decide
+
+/-- **Listener capacity gate.** Over every history the listener placeholders never push
+    the slab past `10 + 2 * max_connections` (no client session open) ... -/
+theorem C08_listener_capacity_bounded (ops : List Op) (s : WState)
+    (h : 3 + s.slab.length ≤ capThreshold s) :
+    3 + (runState s ops).slab.length ≤ capThreshold (runState s ops) :=
+  c08_listener_capacity_bounded ops s h
+
+/-- ... and at the gate every AddListener, of any protocol, is refused with one Failure
+    ("session list is full") and the proxies keep their listeners (the views take it:
+    same family as F8/F22) -/
+theorem C08_listener_capacity_refuses (s : WState) (t : LType) (a : Nat) (v : Bool)
+    (hs : s.stopped = false) (h : atCapacity s = true) :
+    (step s (.addListener t a v)).2.resp = [.failure] ∧
+    (step s (.addListener t a v)).1.listeners = s.listeners :=
+  c08_listener_capacity_refuses s t a v hs h
+
+example : atCapacity (runState (WState.initWith 1)
+    ((List.range 9).map fun i => Op.addListener .tcp i true)) = true ∧
+    atCapacity (runState (WState.initWith 1) ((List.range 8).map fun i => Op.addListener .tcp i true)) = false := by
+  decide
+
+/-- **QueryCertificatesFromWorkers by fingerprint** is answered from the view: OK iff some
+    address holds that certificate (add / remove / replace keep the view's store) -/
+theorem C08_qcerts_found_iff (s : WState) (id : Nat) (hs : s.stopped = false) :
+    (step s (.queryCerts 1 id)).2.resp = [.ok] ↔ ∃ a, (a, id) ∈ s.view.certs :=
+  c08_qcerts_found_iff s id hs
+
+example : (run WState.init [Op.addCert 0 0 true, .queryCerts 1 0, .replaceCert 0 0 true 1 true,
+    .queryCerts 1 0, .queryCerts 1 1, .queryCerts 0 0]).2.map (·.resp)
+    = [[.failure], [.ok], [.failure], [.failure], [.ok], [.ok]] := by decide
+
 /-! ### the worker's view converges on the main process' view -/
 
 /-- one step of a running worker updates its `config_state` with the same `dispatch`
